@@ -416,21 +416,21 @@ func runC06(c *RunCtx) {
 	if c.Thorough() {
 		funcs = nil
 	}
-	for v := 0; v < c.Q(32, 160); v++ {
+	for v := 0; v < c.Q(64, 240); v++ {
 		c.Program(fmt.Sprintf("wuf/%d", v), func(p *Prog) {
 			cfg := drawC06(p.Rng, "wuf")
 			p.Explore(func(pl Plan) *Result { return epC06(c, cfg) },
 				ExploreOpts{Base: 3, K: c.Q(2, 5), Funcs: funcs, Pairs: c.Q(20, 150), MaxCases: c.Q(250, 3000)})
 		})
 	}
-	for v := 0; v < c.Q(32, 160); v++ {
+	for v := 0; v < c.Q(64, 240); v++ {
 		c.Program(fmt.Sprintf("barrier/%d", v), func(p *Prog) {
 			cfg := drawC06(p.Rng, "barrier")
 			p.Explore(func(pl Plan) *Result { return epC06(c, cfg) },
 				ExploreOpts{Base: 3, K: c.Q(2, 5), Funcs: funcs, Pairs: c.Q(20, 150), MaxCases: c.Q(250, 3000)})
 		})
 	}
-	for v := 0; v < c.Q(16, 64); v++ {
+	for v := 0; v < c.Q(32, 96); v++ {
 		c.Program(fmt.Sprintf("tail/%d", v), func(p *Prog) {
 			cfg := c06TailCfg{WK: Pick(p.Rng, WPlain, WErr, WResult), QK: Pick(p.Rng, QFifo, QPrio), Conc: Pick(p.Rng, 1, 1, 2, 3),
 				NTail: 1 + p.Rng.Intn(3), Mode: Pick(p.Rng, "cancel", "purge"), Bar: Pick(p.Rng, "WaitUntilFinished", "WaitUntilFinished", "PauseAndWait", "Stop", "WaitAndStop")}
